@@ -14,12 +14,12 @@ structure PVal (α : Type) where
   src : PSource
   deriving Repr, DecidableEq
 
-/-- `FuseCommand.invoke` for one known key: a configuration-file value replaces the parameter iff the parameter is
-    None or came from its default -/
+/-- `FuseCommand.invoke` for one known key: a configuration-file value replaces the parameter iff the parameter came from its
+    default (a value given on the command line stays - also an explicit null such as `--nodata null`, finding D60) -/
 def mergeKey {α : Type} (p : PVal α) (conf : Option α) : PVal α :=
   match conf with
   | none => p
-  | some c => if p.val.isNone || p.src == .default then ⟨some c, .commandline⟩ else p
+  | some c => if p.src == .default then ⟨some c, .commandline⟩ else p
 
 /-- the whole merge over an association list of parameters; an unknown configuration key is rejected -/
 def mergeAll {α : Type} (params : List (String × PVal α)) (conf : List (String × α)) : Option (List (String × PVal α)) :=
